@@ -388,6 +388,8 @@ def input_untouched_rule(ctx, R4):
 
 
 MUTANTS = [
+    ('pairwise-scan-short-lists-only', 'miasmx/expression/expression_helper.py', '        while i<len(args)-1:', '        while i<len(args)-1 and len(args) <= 16:', 'C13.D10'),
+
     ('merge-slice-nocopy', 'miasmx/expression/expression_helper.py', '            out = v[0].copy(), v[1], v[2]\n', '            out = v[0], v[1], v[2]\n', 'C13.D4'),
     ('key-slice-stop', 'miasmx/expression/expression.py',
      'return [ 5, key_expr(e.arg), e.start, e.stop ]', 'return [ 5, key_expr(e.arg), e.start ]', 'C13.D1'),
